@@ -829,8 +829,16 @@ class Interp(ExprMixin, CallMixin, AnyMixin):
                 compare(self, a, b, p)
                 res.obligations.extend(p.obligations)
                 res.covers |= p.covers
-        unpaired = [x["id"] for x in A + B if x["paired"] == 0 and x["end"] != "unsupported"]
-        chk.oblige(f"{name}/every-path-of-either-side-has-a-counterpart", not unpaired, detail=unpaired[:10])
+        unpaired = [x for x in A + B if x["paired"] == 0 and x["end"] != "unsupported"]
+        a_keys = {}
+        for a in A:
+            a_keys.setdefault(a["choices"], []).append(a)
+        det = []
+        for x in unpaired[:4]:
+            other = (by_key if x in A else a_keys).get(x["choices"], [])
+            det.append({"id": x["id"], "end": x["end"], "choices": [f"{l}={v}" for l, v in x["choices"]][-14:],
+                        "same_choices_on_other_side": len(other), "pc_tail": [str(f)[:120] for f in x["pc"][-6:]]})
+        chk.oblige(f"{name}/every-path-of-either-side-has-a-counterpart", not unpaired, detail=det + [{"count": len(unpaired)}])
         res.obligations.extend(chk.obligations)
         res.ends["pairs"] = pairs
         res.wall = time.time() - t0
